@@ -24,3 +24,5 @@ package dragonboat
 const verifEnabled = false
 
 func (e *engine) verifClose() error { return nil }
+
+func verifYield(string) {}
